@@ -55,7 +55,7 @@ CLAIMED = {
    note="Trusted: the target compilers as the definition of 'compiles warning-clean'; the bench's generated user units (a mistake there shows up as a compile error and would be reported). " + TB),
  "C12": dict(engine="lean+facts+cli", technique="Lean 4 proof (invariant over the depth-first loader, DFS acyclicity theorem) + differential correspondence on random include graphs with file-system oracle tables",
    text="Lean 4: resolve returns the first match in search order for bare names (with the none-iff characterisation) and resolves paths with a directory part relative to the includer only; "
-        "loadAll_ok: whenever the loader succeeds the resolved include graph it built is acyclic (for every hash iteration order), no file was loaded twice and the main file is loaded; a detected cycle is never dropped. 
+        "loadAll_ok: whenever the loader succeeds the resolved include graph it built is acyclic (for every hash iteration order), no file was loaded twice and the main file is loaded; a detected cycle is never dropped. "
         "The cycle test flags an include edge exactly when it closes a cycle, independent of table order (hasCycle_iff, include_cycle_flag_iff, hasCycle_order_independent). "
         "Tie: random include graphs over up to 5 directories (same name in several directories, bare/./../nested spellings, self-includes and cycles of any length, unresolvable names, symlinked directories, permuted and re-spelled -I lists) "
         "materialised on disk; the model's two file-system oracle tables are read from the real tree; verdict, load set and origin of every visible declaration of the real pipeline are compared with the model and with an independent evaluation of the resolution rule.",
